@@ -33,7 +33,7 @@ def run(tier, seed, only=None):
             continue
         run.run_unit(u, prog)
         run.vacuity_check(u)
-    for u in SU.rx_units():
+    for u in SU.rx_units(rows={'_open_received': SU.st_in(4)}):
         if u.name not in ('BGP.negotiate_hold_time', 'BGP._open_received'):
             continue
         if only and u.name not in only:
